@@ -383,17 +383,32 @@ Definition format_number_body (args : list value) : res :=
   else format_number_finish args num (-1)%Z).
 
 (* DateFromParts / TimeFromParts: dates.NewDate / NewTimeOfDay normalise, the value is opaque *)
-Definition leap_year (y : Z) : bool := (((y mod 4 =? 0) && negb (y mod 100 =? 0)) || (y mod 400 =? 0))%Z.
-Definition days_in_month (y m : Z) : Z :=
-  (if m =? 2 then (if leap_year y then 29 else 28)
-   else if (m =? 4) || (m =? 6) || (m =? 9) || (m =? 11) then 30 else 31)%Z.
+(* the proleptic Gregorian calendar as time.Date normalises it (days since 1970-01-01 and back; floor division) *)
+Definition days_from_civil (y m d : Z) : Z :=
+  (let y' := if m <=? 2 then y - 1 else y in
+   let era := y' / 400 in
+   let yoe := y' - era * 400 in
+   let mp := if 2 <? m then m - 3 else m + 9 in
+   let doy := (153 * mp + 2) / 5 + d - 1 in
+   let doe := yoe * 365 + yoe / 4 - yoe / 100 + doy in
+   era * 146097 + doe - 719468)%Z.
 
-(* e042b83: the year is 1-9999, the month 1-12 and the day a day of that month (time.Date(year, month+1, 0).Day()) *)
+Definition year_of_days (z0 : Z) : Z :=
+  (let z := z0 + 719468 in
+   let era := z / 146097 in
+   let doe := z - era * 146097 in
+   let yoe := (doe - doe / 1460 + doe / 36524 - doe / 146096) / 365 in
+   let doy := doe - (365 * yoe + yoe / 4 - yoe / 100) in
+   let mp := (5 * doy + 2) / 153 in
+   let m := if mp <? 10 then mp + 3 else mp - 9 in
+   yoe + era * 400 + (if m <=? 2 then 1 else 0))%Z.
+
+(* 0bc2a28: the month is 1-12; a day beyond the end of the month (or before its start) counts on into the neighbouring
+   months (time.Date(year, month, day)), and the year of THAT date has to be 1-9999 *)
 Definition date_from_parts_body (year month day : Z) : res :=
-  if ((year <? 1) || (9999 <? year))%Z then Ret VErr
-  else if ((month <? 1) || (12 <? month))%Z then Ret VErr
-  else if ((day <? 1) || (days_in_month year month <? day))%Z then Ret VErr
-  else Ret (VOpaque KDate []).
+  if ((month <? 1) || (12 <? month))%Z then Ret VErr
+  else let y := year_of_days (days_from_civil year month 1 + (day - 1)) in
+       if ((y <? 1) || (9999 <? y))%Z then Ret VErr else Ret (VOpaque KDate []).
 
 Definition time_from_parts_body (hour minute second : Z) : res :=
   if ((hour <? 0) || (23 <? hour))%Z then Ret VErr
